@@ -123,7 +123,27 @@ impl Message {
                 let services = services.unwrap();
                 Ok(Message::Services(services))
             }
-            10 => Ok(Message::GhostChain(GhostChainSync::deserialize(buffer))),
+            10 => {
+                // the entry count is chosen by the sender: 36 header bytes plus 82 bytes per entry must be present
+                if buffer.len() < 36 {
+                    warn!(
+                        "buffer size : {:?} is not valid for type : {:?}",
+                        buffer.len(),
+                        message_type
+                    );
+                    return Err(Error::from(ErrorKind::InvalidData));
+                }
+                let count = u32::from_be_bytes(buffer[32..36].try_into().unwrap()) as u64;
+                if (buffer.len() as u64) < 36 + count * 82 {
+                    warn!(
+                        "buffer size : {:?} is too small for {:?} ghost chain entries",
+                        buffer.len(),
+                        count
+                    );
+                    return Err(Error::from(ErrorKind::InvalidData));
+                }
+                Ok(Message::GhostChain(GhostChainSync::deserialize(buffer)))
+            }
             11 => {
                 if buffer.len() != 72 {
                     warn!(
